@@ -148,7 +148,12 @@ def run_case(case):
     info.label(f"key_size={ks}" if ks in (1, 2, 3, 4, 8, 32) else "key_size=other")
     info.label("default-blank" if default == b"" else "default-nonblank")
     ref = RefSMT(ks, default)
-    tree = impl("construct", SparseMerkleTree, key_size=ks, default=default)
+    if ks == 32 and default == b"":
+        tree = impl("construct", SparseMerkleTree)  # the documented defaults
+    elif default == b"":
+        tree = impl("construct", SparseMerkleTree, ks)
+    else:
+        tree = impl("construct", SparseMerkleTree, key_size=ks, default=default)
     root0 = ref.root({})
     expect_eq("initial-root", bytes(tree.root_hash), root0, "root of the fresh tree")
     model = {}
